@@ -9,24 +9,35 @@ LEVEL_TEXT = ("Mixed.  PROVED: the real ReplacementFrontend (default safe settin
               "hands the actual frontend a query that is equivalent to the original one on every model and returns its answer unchanged; _add "
               "(equality, negation, other, batch) derives only implied replacements and keeps the actual frontend's model set equal to the "
               "specification's; _replacement, downsize, remove/clear_replacements keep the invariant; _copy/_blank_copy give the branch its own "
-              "dictionaries.  replace_dict and the actual frontend are answered by contract.  BOUNDED (never counted as proved): operation "
+              "dictionaries.  replace_dict and the actual frontend are answered by contract.  The real HybridFrontend on top of contract stubs of "
+              "its two frontends: in exact mode the exact frontend is asked the caller's question and its answer returned unchanged, in "
+              "approximate mode the approximate frontend's answer (the exact one's only when it gives up), _approximate_first_call returns a "
+              "prefix of one of the two answers; _add / combine / merge / split / branch keep 'both frontends hold the solver's constraints and "
+              "no frontend is shared between solvers' (each piece of a split gets its own approximate frontend).  BOUNDED (never counted as proved): operation "
               "histories on the real SolverReplacement / SolverHybrid / SolverVSA classes judged by a stateless reference (exact modes by "
               "equality, approximate modes by containment).")
-EXPLANATION = ("proved: 18 per-method obligations of ReplacementFrontend over a universe of 4 assignments and 2-bit values; bounded: histories "
+EXPLANATION = ("proved: 19 per-method obligations of HybridFrontend over stub frontends, 18 per-method obligations of ReplacementFrontend over a universe of 4 assignments and 2-bit values; bounded: histories "
                "on the real solver classes under the option combinations")
 TECHNIQUE = "class-in-isolation deductive proof of ReplacementFrontend's representation invariant and query equivalence (pyvc, z3) + bounded run-time contracts on histories"
 RULE = _rtc.RTC_RULE
 M = "vf.contracts.replfront"
-FUNCTIONS = ["ReplacementFrontend." + m for m in ["eval", "batch_eval", "max", "min", "solution", "is_true", "is_false", "satisfiable", "_add", "add_replacement",
+FUNCTIONS = ["HybridFrontend." + m for m in ["_do_call", "_hybrid_call", "_approximate_first_call", "eval", "eval_to_ast", "batch_eval", "max", "min", "solution", "is_true",
+                                             "is_false", "satisfiable", "unsat_core", "_add", "combine", "merge", "split", "_copy", "_blank_copy", "simplify", "downsize",
+                                             "finalize"]] + \
+            ["ReplacementFrontend." + m for m in ["eval", "batch_eval", "max", "min", "solution", "is_true", "is_false", "satisfiable", "_add", "add_replacement",
                                                   "_replacement", "_replace_list", "_copy", "_blank_copy", "downsize", "remove_replacements", "clear_replacements"]]
 TRUSTED = _rtc.RTC_TRUSTED + ["contract of claripy.replace_dict (C08): the result agrees with the original wherever the dictionary's equalities hold",
                               "contract of the actual frontend (records constraints, answers queries; its own correctness is C11)"]
 ASSUMPTIONS = ["ReplacementFrontend is parametric in the constraint language: the proof is over a universe of 4 assignments and 2-bit values",
                "default safe settings only (auto_replace, not unsafe_replacement, not complex_auto_replace); user-supplied add_replacement() calls are outside the statement",
-               "HybridFrontend is covered by the bounded part only", "per-method contracts compose to histories by induction (stated, not mechanised)"]
+               "HybridFrontend: the dispatch between the two frontends and the invariant 'both hold the solver's constraints, neither is shared' are proved; that the approximate frontend's ANSWERS over-approximate is C24",
+               "per-method contracts compose to histories by induction (stated, not mechanised)"]
 
 
 def tasks(tier, seed=0):
     from vf.contracts import replfront
+    from vf.contracts import hybrid
     out = [task(M, "ob_replacement", f"replacement.{m}/equiv+inv", ["C13"] + (["C14"] if "copy" in m else []), method=m, tier=tier) for m in replfront.METHODS]
+    out += [task("vf.contracts.hybrid", "ob_hybrid", f"hybrid.{m}/dispatch+inv", ["C13"] + (["C15"] if m.split("[")[0] in ("combine", "merge", "split") else []),
+                 method=m, tier=tier) for m in hybrid.METHODS]
     return out + _rtc.rtc_tasks("C13", tier, seed)
